@@ -24,12 +24,28 @@ MAX_CALLEE_BLOCKS = 600
 # functions of crate `lexgen` / `lexgen_util` on the reference tree that rules refer to by name, or
 # that are entry points analysed on their own
 ANCHOR_PREFIXES = (
-    "nfa::NFA::", "dfa::DFA::", "dfa::State::", "nfa::State::", "range_map::RangeMap::", "range_map::Range::",
     "dfa::codegen::ctx::CgCtx::", "dfa::codegen::search_table::SearchTableSet::",
     "right_ctx::RightCtxDFAs::", "right_ctx::RightCtxIdx::", "semantic_action_table::", "display::",
 )
 ANCHOR_EXACT = {
-    "lexer", "compile_rule_set", "compile_single_rule",
+    # the NFA / DFA / range-map API as it exists on the reference tree (methods a refactoring adds,
+    # e.g. private accessors, are helpers)
+    "nfa::NFA::add_any_transition", "nfa::NFA::add_char_transition", "nfa::NFA::add_empty_transition",
+    "nfa::NFA::add_end_of_input_transition", "nfa::NFA::add_range_transition", "nfa::NFA::add_range_transitions",
+    "nfa::NFA::add_regex", "nfa::NFA::any_transitions", "nfa::NFA::char_transitions",
+    "nfa::NFA::compute_state_closure", "nfa::NFA::end_of_input_transitions", "nfa::NFA::get_accepting_state",
+    "nfa::NFA::initial_state", "nfa::NFA::make_state_accepting", "nfa::NFA::new", "nfa::NFA::new_state",
+    "nfa::NFA::next_empty_states", "nfa::NFA::range_transitions", "nfa::State::new",
+    "dfa::DFA::add_char_transition", "dfa::DFA::add_dfa", "dfa::DFA::from_states", "dfa::DFA::initial_state",
+    "dfa::DFA::into_state_indices", "dfa::DFA::is_accepting_state", "dfa::DFA::make_state_accepting",
+    "dfa::DFA::new", "dfa::DFA::new_state", "dfa::DFA::set_any_transition",
+    "dfa::DFA::set_end_of_input_transition", "dfa::DFA::set_range_transitions", "dfa::DFA::get_predecessors",
+    "dfa::State::has_no_transitions", "dfa::State::new",
+    "range_map::Range::contains", "range_map::RangeMap::from_non_overlapping_sorted_ranges",
+    "range_map::RangeMap::insert", "range_map::RangeMap::insert_ranges", "range_map::RangeMap::into_iter",
+    "range_map::RangeMap::is_empty", "range_map::RangeMap::iter", "range_map::RangeMap::len",
+    "range_map::RangeMap::map", "range_map::RangeMap::new", "range_map::RangeMap::remove_ranges",
+    "lexer",
     "ast::parse_regex", "ast::parse_regex_0", "ast::parse_regex_1", "ast::parse_regex_2", "ast::parse_regex_3",
     "ast::parse_regex_4", "ast::parse_regex_ctx", "ast::parse_charset", "ast::parse_char_or_range",
     "ast::parse_rule", "ast::parse_rule_or_binding", "ast::make_lexer_parser",
@@ -117,7 +133,7 @@ def _closure_origin(blocks, local, depth=6):
     return None
 
 
-def inline_body(crate, body, max_depth=MAX_DEPTH):
+def inline_body(crate, body, max_depth=MAX_DEPTH, anchor_pred=None):
     """Returns (new body, [names of inlined callees])."""
     mir = body["mir"]
     out = copy.deepcopy(body)
@@ -148,7 +164,11 @@ def inline_body(crate, body, max_depth=MAX_DEPTH):
                     if d is not None:
                         callee = crate.raw_body(norm_path(d))
                         closure = True
-            elif cname and not is_anchor(cname):
+            elif cname and "::{closure" in cname and crate.raw_body(cname) is not None:
+                # a direct call of a local closure, already resolved to the closure's body
+                callee = crate.raw_body(cname)
+                closure = True
+            elif cname and not (anchor_pred or is_anchor)(cname):
                 callee = crate.raw_body(cname)
             if callee is None:
                 continue
